@@ -1156,7 +1156,7 @@ def rpx_rules(ctx, prefix):
             return "%s%s%s" % (resolved(e0["l"], depth), e0["op"], resolved(e0["r"], depth))
         if e0.get("k") == "paren":
             return "(%s)" % resolved(e0["e"], depth)
-        return sir.expr_str(e0).replace(" ", "")
+        return sir.expr_str(e0)
     tokf = None
     for n in conv:
         tokf = {x["name"]: x["e"] for x in n["fields"]}
@@ -1164,7 +1164,7 @@ def rpx_rules(ctx, prefix):
     dsc = "no vw token"
     vname = None
     if tokf and "value" in tokf:
-        sv = resolved(tokf["value"])
+        sv = resolved(tokf["value"]).replace(" ", "")
         dsc = sv
         okx = sv in ("value*100./ss.options.rpx_ratio", "value*100.0/ss.options.rpx_ratio", "value/ss.options.rpx_ratio*100.", "value*(100./ss.options.rpx_ratio)", "(value*100.)/ss.options.rpx_ratio")
         v0 = sir.strip_ref(tokf["value"])
